@@ -152,6 +152,20 @@ def observe(c, props=()):
     return o
 
 
+def observe_sequence_symbols(c, props=()):
+    """make_sequence call -> one symbol observation per returned symbol (content expectations do not apply per symbol)."""
+    outcome, _, syms = execute(c, time_limit=300)
+    content = dec_content(c['content'])
+    res = []
+    for i, sres in enumerate(syms or []):
+        o = {'_call': c, '_index': i, 'props': list(props), 'outcome': outcome, 'exp': expectation(content, c['kw']), 'res': sres,
+             '_cost': len(sres['matrix']) ** 2}
+        res.append(o)
+    if not res:
+        res.append({'_call': c, 'props': list(props), 'outcome': outcome, 'exp': expectation(content, c['kw'])})
+    return res
+
+
 def _observe_star(args):
     return observe(*args)
 
